@@ -54,6 +54,17 @@ class Ctx:
         print("[%s %6.1fs]" % (self.prop, time.time() - self.t0), *a, flush=True)
 
     # ---------------------------------------------------------------- harness
+    def build_race_harness(self):
+        """The same harness built with the race detector (for C14); returns the binary path."""
+        hdir = os.path.join(self.work, "harness")
+        out = os.path.join(self.work, "xjsh-race")
+        env = dict(os.environ, **GOENV)
+        for tags in (["-tags", "verif"], []):
+            p = subprocess.run(["go", "build", "-race"] + tags + ["-o", out, "."], cwd=hdir, env=env, capture_output=True, text=True)
+            if p.returncode == 0:
+                return out
+        raise Infra("harness does not build with -race: %s" % p.stderr[-2000:])
+
     def build_harness(self):
         """Build the Go harness against the CURRENT working tree of REPO (hooks on if they build)."""
         hdir = os.path.join(self.work, "harness")
@@ -82,7 +93,15 @@ class Ctx:
         results = {}
         pending = list(cases)
         env = dict(os.environ, XJSH_CASE_TIMEOUT_MS=str(case_timeout_ms))
+        hangs = 0
         while pending:
+            if hangs >= 4:
+                # every hang costs the whole per-case budget: the remaining cases are not run
+                # (they are reported as skipped; the hangs already seen are failures by themselves)
+                for c in pending:
+                    results[_key(c["id"])] = {"id": c["id"], "skipped": True, "hang": False}
+                self.notes.append("harness %s: %d cases skipped after %d hangs" % (cmd, len(pending), hangs))
+                break
             inp = "\n".join(json.dumps(c, separators=(",", ":")) for c in pending) + "\n"
             p = subprocess.run([self.harness, cmd], input=inp, capture_output=True, text=True,
                                timeout=timeout, env=env)
@@ -99,6 +118,7 @@ class Ctx:
                 break
             if p.returncode == 3 and got > 0:
                 pending = pending[got:]
+                hangs += 1
                 continue
             if got < len(pending) and p.returncode != 0 and got >= 0 and p.returncode not in (2,):
                 # crashed hard (fatal error: stack overflow, concurrent map writes, ...): the case
